@@ -339,5 +339,6 @@ static void body(void)
 int main(int argc, char **argv)
 {
     parse_opts(argc, argv);
+    run_prelude();
     return mc_guarded_main(body);
 }
